@@ -11,10 +11,12 @@ def check(run):
     run.rules.append("leg M/R: the program shapes of C07 (depth 1 all kinds, depth 2 compositions) with an error AND a panic injected at every invocation position of every handler kind (context "
                      "function by call and by bare name, global function, user prefix / infix / postfix / assignment operator): the machine stops at the fault (no later invocation), the context "
                      "lock is free and unpoisoned in every final state, the context equals the denotation at the fault point; the real evaluator is run on each and afterwards the same context is "
-                     "used again (set / get / a fresh evaluation), an evaluation runs on another thread, a registration is made, and all five global mutexes are probed; non-trivial = the fault fired")
+                     "used again (set / get / a fresh evaluation), an evaluation runs on another thread, a registration is made, and all five global mutexes are probed; the dispatch configurations of C08 (a name bound in the context, globally, both, as a variable, a built-in shadowed or replaced) with the fault at the first and second invocation; non-trivial = the fault fired")
     run.rules.append("leg T: random programs with random fault positions, same follow-ups, validated by TLC")
     ef.eval_model_and_replay(run, "faults-d1", ef.mceval_cfg("c15-d1", depth=1, full_faults=True), "C15", sample_filter=faulted)
     ef.eval_model_and_replay(run, "faults-d2", ef.mceval_cfg("c15-d2", depth=2, full_faults=True, modes=("bare",) if not thorough else ("call", "bare", "mixed")), "C15", sample_filter=faulted)
+    # a failing context function must not fall through to a registered function of the same name (nor a failing global to anything else)
+    ef.eval_model_and_replay(run, "dispatch", ef.mceval_cfg("c15-dispatch", family="dispatch"), "C15", sample_filter=faulted)
     ef.eval_trace(run, "random", 20000 if thorough else 3000, run.seed + 9, "C15")
     run.exhaustive = False
     run.assumptions += ["a panic is observed with catch_unwind in the harness; 'no further handler' is observed through the harness's own log",
